@@ -128,7 +128,16 @@ class CommandHang(Exception):
     """an in-process command did not return within HANG_SECONDS (pure-Python endless loop): reported as internal error"""
 
 
+_HANG = {"cpu0": 0.0, "wall0": 0.0}
+
+
 def _hang(signum, frame):
+    # the verdict is on CPU time the command itself consumed (an endless loop burns it); on a loaded machine the
+    # wall-clock alarm alone says nothing, so it is re-armed until the command has had its share (or 15 min passed)
+    cpu = time.process_time() - _HANG["cpu0"]
+    if cpu < HANG_SECONDS * 0.75 and time.monotonic() - _HANG["wall0"] < 900:
+        signal.setitimer(signal.ITIMER_REAL, 30.0)
+        return
     raise CommandHang("command still running after %.0f s" % HANG_SECONDS)
 
 
@@ -147,6 +156,7 @@ def run(cmd, argv, cwd=None):
     try:
         if threading.current_thread() is threading.main_thread():
             signal.signal(signal.SIGALRM, _hang)
+            _HANG["cpu0"], _HANG["wall0"] = time.process_time(), time.monotonic()
             signal.setitimer(signal.ITIMER_REAL, HANG_SECONDS)
             armed = True
         res = r.invoke(CMDS[cmd], argv, catch_exceptions=True)
